@@ -596,6 +596,13 @@ _ADD21 = {
     "C18": " The real-signals kind may run two handlers on the default notifier.",
     "C20": " Requests may already carry a logger in their context; nothing may be logged through it.",
 }
+_ADD24 = {
+    "C13": " c13.fold-long has a branch of dense false starts: the needle's first rune repeated 1..520 times in other members of its fold orbit, followed by a window that folds to the needle with the same or another byte length.",
+    "C17": " c17.late-context (deterministic, both variants): Acquire on a full semaphore with a caller-defined context that is past its deadline but not done must block, then return that context's error.",
+}
+for _pid, _lt in _ADD24.items():
+    PROPS[_pid]["level_text"] += _lt
+
 _ADD23 = {
     "C04": " Mirrored separator pairs ('.'-k, '.'+k) mutate canonical names.",
     "C05": " The ARPA generator has a branch of well-formed names with exactly one label in a spelling general-purpose number parsers accept (1_0, 0x1, +1, 1e1).",
